@@ -11,6 +11,7 @@ mod c19;
 mod c20;
 mod campaign;
 mod common;
+mod conform;
 mod fsfault;
 mod gf2;
 mod hist;
